@@ -14,6 +14,7 @@ CONSTANTS
   AdoptGuard = TRUE
   WeakMessager = TRUE
   CloseSend = "try"
+  DrainInLoop = TRUE
 INVARIANTS HandleImpliesLock AtMostOneInstance UnlockAfterSync NoUnsyncedOpen DropReturnedWorkersGone
 CONSTRAINT TrackL
 POSTCONDITION TraceAccepted
